@@ -54,6 +54,12 @@ func gen(r *verifsim.Rng, tier string) (any, hx.Sched) {
 		w.Kind = "gen"
 		w.Src, w.Expect, w.Parts = genProgram(r)
 		w.Orders = orders(r, 6)
+		if r.Intn(8) == 0 {
+			// the same kind of program, but run by the interpreter binary in fresh OS
+			// processes: stdout, stderr (diagnostics) and the exit status are compared
+			w.Kind = "genproc"
+			w.Orders = orders(r, 3)
+		}
 	case x < 8:
 		w.Kind = "pair"
 		w.A, w.Src, w.Parts = genPair(r)
@@ -182,6 +188,28 @@ func execute(t *testing.T, x any, s hx.Sched) *hx.Outcome {
 	switch w.Kind {
 	case "corpus":
 		return execCorpus(t, w)
+	case "genproc":
+		f, err := os.CreateTemp(filepath.Join(root(), "tests"), "gen-*.php")
+		if err != nil {
+			o := &hx.Outcome{}
+			o.Inconclusive++
+			return o
+		}
+		f.WriteString(w.Src)
+		f.Close()
+		defer os.Remove(f.Name())
+		c := *w
+		c.File = filepath.Base(f.Name())
+		o := execCorpus(t, &c)
+		// the temp file name must not leak into signatures or hashes
+		o.Hash = hx.HashStrings(w.Src)
+		for i := range o.Violations {
+			o.Violations[i].Detail = strings.ReplaceAll(o.Violations[i].Detail, c.File, "<generated program>") + " program: " + w.Src
+		}
+		if sm, ok := o.Sample.(map[string]any); ok {
+			sm["kind"], sm["file"], sm["program"] = "genproc", "<generated program>", w.Src
+		}
+		return o
 	case "pair":
 		return execPair(t, w)
 	}
@@ -457,8 +485,11 @@ func clip(s string) string {
 	return s
 }
 
+var genFileRe = regexp.MustCompile(`gen-\d+\.php`)
+
 func normalise(s string) string {
 	s = tsRe.ReplaceAllString(s, "<ts>")
+	s = genFileRe.ReplaceAllString(s, "gen.php")
 	s = strings.ReplaceAll(s, root(), "<root>")
 	return s
 }
